@@ -67,7 +67,7 @@ check('C16', 'exploration',
       'exact integer arithmetic (nu = 1), the box of well-conditioned planted '
       'cases, the layouts (row orders, splits over files, path orders) and '
       'the case analysis of get_fit_status; TLC checks conditioning, monotone '
-      'curves crossing at p_th only and success <=> plausible on 20 480 '
+      'curves crossing at p_th only and success <=> plausible on 25 600 '
       'entries, and emits the domain.  Every case is materialised as real '
       'result files lying on the ansatz, in several layouts; the real '
       'Analysis.calculate_thresholds estimates; the real get_fit_status is '
